@@ -55,6 +55,8 @@ impl EventGen for ReuseElement {
                 })?;
         }
         instance_element.expand_compound_size();
+        // the instance is placed with its final size: the template's dw / dh included
+        instance_element.resolve_size_delta();
         let instance_size = instance_element.size(context).inspect_err(|_| {
             context.pop_element();
         })?;
@@ -139,6 +141,12 @@ impl EventGen for ReuseElement {
         // without a position on the reuse element the instance keeps the template's own
         // (set_position_attrs would strip its cx / cy / dx / dw ... as superseded)
         if pos.has_x_position() || pos.has_y_position() {
+            if instance_element.name != "g" {
+                // a shorthand left on the template (xy="0") would be expanded after, and
+                // fight with, the per-axis attributes written here (the attributes of a
+                // group are variables of its content: it is moved by a transform)
+                instance_element.expand_compound_pos();
+            }
             pos.set_position_attrs(&mut instance_element);
         }
 
